@@ -1,7 +1,7 @@
 /- `c10` command: statistics of a reading array, selector trace, downstream use, inferred covariance. -/
 import QExPy.Driver.Json
 import QExPy.Model.Stats
-import QExPy.Model.Expr
+import QExPy.Model.Downstream
 namespace QExPy.Drv
 open Lean QExPy
 
@@ -15,9 +15,7 @@ def optFBList (j : Json) (k : String) : R (Option (List FB)) :=
   | .error _ => pure none
 
 /-- `k * a + c` propagated by the derivative method from the (value, error) in use -/
-def downstream (k c : FB) (r : Stats.Rep FB) : FB × FB :=
-  let e : Expr FB := .bin .add (.bin .mul (.const k) (.var 0)) (.const c)
-  Expr.propagate (fun _ => r.value) (fun _ => r.error) (fun _ _ => FB.exact 0.0) e
+def downstream (k c : FB) (r : Stats.Rep FB) : FB × FB := Stats.downstream k c r.value r.error
 
 def cmdC10 (j : Json) : R Json := do
   let xs ← getFBList (← field j "xs")
